@@ -252,6 +252,57 @@ Theorem C17_reversible_outside_known_class : forall (runnable : file -> bool) (f
 Proof. exact reversible_outside_known_class. Qed.
 Print Assumptions C17_reversible_outside_known_class.
 
+(* CRASH POINTS INSIDE BACKUP (the tool dies: SIGKILL, OOM, time-out).  `backup` saves configuration,
+   eBPF object, executable, unit file in that order and `restore` takes the backed-up executable as
+   the sign that a backup exists.  If backup died before it began to save the executable -- after 0,
+   1 or 2 complete copies, whatever sits at the destination of the copy in flight -- then, after any
+   install, restore refuses: it changes nothing but its own log. *)
+Theorem C17_backup_cut_refused : forall (runnable : file -> bool) (fails : verb -> list event -> bool)
+    (j : nat) (w : world) (d : bool),
+  (j <= 2)%nat -> fs_get BakExe (wfs w) = None ->
+  let w1 := backup_crash runnable fails j w in
+  exec runnable fails (Restore d) (exec runnable fails Install w1) = log_tool (Restore d) (exec runnable fails Install w1).
+Proof. exact backup_cut_refused. Qed.
+Print Assumptions C17_backup_cut_refused.
+
+Theorem C17_backup_cut_inflight_refused : forall (runnable : file -> bool) (fails : verb -> list event -> bool)
+    (j : nat) (w : world) (d : bool) (l : loc) (f : file),
+  (j <= 2)%nat -> fs_get BakExe (wfs w) = None -> l = BakCfg \/ l = BakEbpf ->
+  let w1 := inflight l f (backup_crash runnable fails j w) in
+  exec runnable fails (Restore d) (exec runnable fails Install w1) = log_tool (Restore d) (exec runnable fails Install w1).
+Proof. exact backup_cut_inflight_refused. Qed.
+Print Assumptions C17_backup_cut_inflight_refused.
+
+(* KNOWN FINDING C17-K2.  "After a cut backup, install and restore, either restore refused or the
+   version is reinstated" is refuted when backup died after saving the executable and before the
+   unit file: restore accepts the torso, stops the service, puts back three files, fails on the unit
+   file (exit 1) and never starts the service ... *)
+Theorem C17_backup_cut_refuted :
+  exists w, installed standin_runnable w = true /\ no_backup w = true /\
+    let w1 := backup_crash standin_runnable never_fails 3 w in
+    KnownClass_C17_backup_cut w w1 = true /\
+    let w3 := exec standin_runnable never_fails (Restore true) (exec standin_runnable never_fails Install w1) in
+    fs_get SysUnit (wfs w3) <> fs_get SysUnit (wfs w) /\ fs_get SysExe (wfs w3) = fs_get SysExe (wfs w) /\
+    wrunning w3 = false /\
+    exit_code standin_runnable never_fails (Restore true) (exec standin_runnable never_fails Install w1) = 1.
+Proof. exact backup_cut_refuted. Qed.
+Print Assumptions C17_backup_cut_refuted.
+
+(* ... and outside that class every crash state between two copies is harmless: restore refuses or
+   reinstates the four files (and, systemctl permitting, the service runs). *)
+Theorem C17_backup_cut_outside_known_class : forall (runnable : file -> bool) (fails : verb -> list event -> bool)
+    (j : nat) (w : world) (d : bool),
+  (j <= 4)%nat -> installed runnable w = true -> no_backup w = true ->
+  let w1 := backup_crash runnable fails j w in
+  KnownClass_C17_backup_cut w w1 = false ->
+  let w2 := exec runnable fails Install w1 in
+  let w3 := exec runnable fails (Restore d) w2 in
+  w3 = log_tool (Restore d) w2 \/
+  ((forall l, In l sys_locs -> fs_get l (wfs w3) = fs_get l (wfs w)) /\
+   ((forall v l, fails v l = false) -> wrunning w3 = true /\ wenabled w3 = true)).
+Proof. exact backup_cut_outside_class. Qed.
+Print Assumptions C17_backup_cut_outside_known_class.
+
 (* faults are not vacuous: with `systemctl stop` failing at every call, uninstall package still
    removes the four files and exits 0 (the service is still reported running: nothing stopped it);
    a failing `disable` leaves the service enabled while the unit file is removed all the same *)
